@@ -95,7 +95,8 @@ def pyval(v):
 
 
 def props_obs(d):
-    return [[s_(k), pyval(v)] for k, v in sorted(d.items())]
+    # iteration order is observable (iter, keys, items, popitem) and is preserved by pickle and deepcopy
+    return [[s_(k), pyval(v)] for k, v in d.items()]
 
 
 def timing_obs(t):
